@@ -116,6 +116,14 @@ Theorem C06_operands_total :
   forall n : fnumber, fval_in_f64_range (n_value n) -> exists ops, fnumber_operands n = Done ops.
 Proof. exact fnumber_operands_total. Qed.
 
+(* The float parser the extracted model is run with (Number.v f64_from_str_exact, exact decimals)
+   meets the first `values_are_f64` hypothesis on every literal of at most 19 bytes (a sufficient,
+   not a necessary bound: what matters is that the integer and the fraction part each fit a u64;
+   literals beyond 15 significant digits are outside the model's validity anyway, class D15). *)
+Theorem C06_exact_parser_in_range :
+  forall s v, f64_from_str_exact s = Some v -> length s <= 19 -> fval_in_f64_range v.
+Proof. exact f64_from_str_exact_in_range. Qed.
+
 (* ---------- non-vacuity: the model on the classical attacks and on the historical witnesses ---------- *)
 Definition ex_call (_ : bytes) (_ : list fvalue) (_ : fargs) : fvalue := VError.
 Definition ex_rules_one (_ : ntype) (_ : operands) : pcat := ONE.
